@@ -69,7 +69,13 @@ Lits == [
   nonvar   |-> EObj(<<Short(EInt(1))>>),
   undefsh  |-> EObj(<<Short(EVar(<<117>>))>>),
   spreadl  |-> EObj(<<PSpread(EList(<<>>))>>),
-  empty    |-> EObj(<<>>)
+  empty    |-> EObj(<<>>),
+  spreadtwice |-> EObj(<<PSpread(EVar(Q)), Pair(EStr(<<97>>), EInt(9)), PSpread(EVar(Q))>>),
+  spreadtwice2 |-> EObj(<<PSpread(EVar(Q)), PSpread(EObj(<<Pair(EStr(<<99>>), EInt(8))>>)), PSpread(EVar(Q))>>),
+  spreadself |-> EObj(<<Pair(EStr(<<97>>), EInt(9)), PSpread(EVar(Q)), Pair(EStr(<<97>>), EInt(7)), Short(EVar(Xv))>>),
+  shorttwice |-> EObj(<<Short(EVar(Xv)), Pair(EStr(<<120>>), EInt(1)), Short(EVar(Xv))>>),
+  compdup  |-> EObj(<<Pair(EVar(Nm), EInt(1)), Pair(EStr(<<107>>), EInt(2)), Pair(EBin("+", EStr(<<>>), EVar(Nm)), EInt(3))>>),
+  nestedspread |-> EObj(<<Pair(EStr(<<111>>), EObj(<<PSpread(EVar(Q))>>)), PSpread(EVar(Q))>>)
 ]
 
 \* parameter tuples <<family, history-or-(perm1,perm2), name>>
